@@ -21,13 +21,15 @@ FNV = {
     "fnv_1a": (14695981039346656037, 1099511628211, 2**64),
     "fnv_1a_32": (0x811C9DC5, 0x01000193, 2**32),
 }
-ALLOWED_CALLS = {"md5", "sha256", "digest", "unpack", "ord", "list", "map", "range", "isinstance", "encode", "append", "<slot>",
+ALLOWED_CALLS = {"md5", "sha256", "digest", "unpack", "ord", "list", "tuple", "map", "range", "isinstance", "encode", "append", "<slot>", "len", "enumerate", "zip",
                  "fnv_1a", "default_md5", "default_sha256", "wraps"}
 
 
 def _walker(prog):
     """helpers that are not functions of the pinned tree are inlined (see anchors.py)"""
-    return Walker(prog, None, inline="deep", opaque=OPAQUE)
+    w = Walker(prog, None, inline="deep", opaque=OPAQUE)
+    w.memo_transparent = True  # a memoised helper is looked through here; memo_rule() checks what makes that sound
+    return w
 
 
 def resolve_phi(v, atom, truth):
@@ -41,6 +43,34 @@ def resolve_phi(v, atom, truth):
                 return n[3] if truth else n[2]
         return None
     return mapx(v, f)
+
+
+def memo_rule(prog, rep):
+    """a memoised function hands the SAME object to every caller: it must be a pure function of hashable arguments whose result is
+    immutable (else one caller's in-place change shows up in the next call's answer)"""
+    from ..walk import _memo_decorator
+    w = _walker(prog)
+    mod = [m for m in prog.modules.values() if m.relpath.endswith("hashes.py")]
+    for m in mod:
+        for f in m.functions.values():
+            if not any(_memo_decorator(d) for d in f.decorators):
+                continue
+            ps = [p for p in w.run(f) if p.exit[0] == "return"]
+            bad = None
+            for p in ps:
+                v = strip_epochs(p.exit[1])
+                immut = v[0] in ("tup", "c", "bin", "nary", "unp") or (v[0] == "call" and v[1] in (("g", "tuple"), ("g", "int"), ("g", "bytes"), ("g", "str"), ("g", "frozenset")))
+                if not immut:
+                    bad = (p, v)
+                for e in p.events:
+                    if e.kind in ("setfield", "setelem") and (e.d.get("base", e.d.get("cont")) or ("x",))[0] not in ("new", "newb"):
+                        bad = (p, ("c", "writes non-local state"))
+            if bad:
+                rep.bad("C18.pure", f.src_name, f"memoised, returns {nshow(bad[1])}",
+                        f"{f.src_name} is memoised and returns {nshow(bad[1])}: every caller receives the same mutable object, so a caller that changes its result in place changes "
+                        "what the next call with the same arguments returns", f.where())
+            else:
+                rep.ok("C18.pure", f"{f.src_name}: memoised, pure, immutable result")
 
 
 def runs(prog):
@@ -164,6 +194,7 @@ def check(prog, rep, tier):
     rep.assume("a function wrapped by the decorators is itself pure (user contract); md5/sha256 are the hashlib functions")
     R = runs(prog)
     E = Effects(prog)
+    memo_rule(prog, rep)
     # purity
     for name, (f, ps) in R.items():
         rep.analysed(f, None, len(ps))
@@ -200,7 +231,9 @@ def check(prog, rep, tier):
             if p.exit[0] != "return":
                 continue
             res = p.exit[1]
-            if res[0] == "comp" and res[1] == "list" and len(res[3]) == 1 and not res[3][0][3]:
+            while res[0] == "call" and res[1] in (("g", "list"), ("g", "tuple")) and len(res[2]) == 1 and not res[3]:
+                res = res[2][0]  # list(tuple(<one value per index>)): the same values, in order
+            if res[0] == "comp" and res[1] in ("list", "gen") and len(res[3]) == 1 and not res[3][0][3]:
                 # comprehension form: one element per element of the domain
                 r0 = ("call", ("g", "range"), (depth,), ())
                 if strip_epochs(res[3][0][2]) != r0:
@@ -325,7 +358,10 @@ def check(prog, rep, tier):
         init = [e for e in pre if e.name == arg0[1]]
         isstr = [c for c in p.conds if strip_epochs(c.atom) == ("call", ("g", "isinstance"), (key, ("g", "str")), ())]
         stmt_form = bool(init) and bool(isstr) and ((isstr[0].truth and canon(init[-1].value) == canon(want[3])) or (not isstr[0].truth and canon(init[-1].value) == canon(want[2])))
-        if not stmt_form and (not init or canon(init[-1].value) != canon(want)):
+        isa = ("call", ("g", "isinstance"), (key, ("g", "str")), ())
+        expr_form = bool(init) and canon(resolve_phi(strip_epochs(init[-1].value), isa, True)) == canon(want[3]) \
+            and canon(resolve_phi(strip_epochs(init[-1].value), isa, False)) == canon(want[2])
+        if not stmt_form and not expr_form and (not init or canon(init[-1].value) != canon(want)):
             okt = (inl[0], f"the first digest is taken over {nshow(init[-1].value) if init else '?'}, not over the key's UTF-8 bytes")
             break
         nxt = [e for e in p.events if e.kind == "bind" and e.loops and e.name == arg0[1]]
